@@ -571,6 +571,36 @@ class Prop(fw.PropBase):
             cases.append({'f': 'digest', 'reads': rs})
         return cases
 
+    def gen_history(self, real_headers):
+        """sequences of digest calls on ONE flagger: reads of different strategies (with / without UMI, ligation tags,
+        bulk, other tag sets), pairs and single reads, now and then a failing or an already tagged read"""
+        rng = self.rng
+        base = 'Is:NS500414;RN:628;Fc:H7YVNBGXC;La:1;Ti:11101;CX:15963;CY:1046;Fi:N;CN:0;aa:GTGAAA;aA:GTGAAA;aI:19;LY:LIB'
+        hand = [base + ';RX:ATCAAG;RQ:GGGGGG;bi:7;bc:ACACACTA;MX:CS2C8U6;BC:ACACACTA;rS:TTGACC',      # UMI + random primer
+                base + ';bi:12;bc:CCAGGATA;MX:SCARC8R2;BC:CCAGGATA',                                 # no UMI
+                base,                                                                                # bulk (ILLU)
+                base + ';RX:GTT;RQ:GGG;bi:296;bc:ACTCCTTA;MX:scCHIC384C8U3;BC:ACTCCTTA;lh:TC;lq:GG',   # ligation tags
+                base.replace(';aA:GTGAAA;aI:19', '') + ';RX:CCA;RQ:LLP;BI:24;bc:GCTTAACC;MX:OLD;BC:GCTTAACC',  # no index, BI
+                base + ';RX:GATACGCG;RQ:GGGGGGGG;bi:261;bc:CAGCAACT;BC:CAGCAACT;QT:GGGGGGGG;ES:TTA;eq:GGG;MX:RBSN']
+        pool = hand + list(real_headers)
+        cases = [{'f': 'history', 'calls': [[[hand[0], []], [hand[0], []]], [[hand[1], []], [hand[1], []]], [[hand[2], []]],
+                                            [[hand[3], []]], [[hand[1], []]], [[hand[4], []]], [[hand[5], []]], [[hand[2], []]]]}]
+        for _ in range(25 if self.tier == 'quick' else 600):
+            calls = []
+            for k in range(rng.randint(2, 6)):
+                h = rng.choice(hand) if rng.random() < 0.4 else rng.choice(pool)
+                r = rng.random()
+                if r < 0.06:
+                    calls.append([['broken', []]])
+                elif r < 0.12:
+                    calls.append([[h, [['SM', 'already']]]])
+                elif r < 0.6:
+                    calls.append([[h, []], [h, []]])
+                else:
+                    calls.append([[h, rng.choice([[], [['NM', 1]]])]])
+            cases.append({'f': 'history', 'calls': calls})
+        return cases
+
     # ---------------------------------------------------------------- K driver
     def load_corpus(self):
         d = os.path.join(fw.VERIF, 'corpus', 'C04')
@@ -622,6 +652,10 @@ class Prop(fw.PropBase):
             elif f == 'digest':
                 q.append((i, [9, [([] if r is None else [S(r[0]), 1 if any(k == 'SM' for k, v in r[1]) else 0])
                                   for r in c['reads']]], f))
+            elif f == 'history':
+                for j, call in enumerate(c['calls']):
+                    q.append((i, [9, [([] if r is None else [S(r[0]), 1 if any(k == 'SM' for k, v in r[1]) else 0])
+                                      for r in call]], 'call:%d' % j))
             elif f == 'chain':
                 r = impl[i]
                 for j, st in enumerate(r.get('stores') or []):
@@ -645,9 +679,12 @@ class Prop(fw.PropBase):
         elif f == 'raw':
             a = ('err', err_class(impl['error'])) if 'error' in impl else ('ok', [[k, v] for k, t, v in impl['store']])
             b = m_res(mv, lambda st: [[U(k), U(v)] for k, v in st])
-        elif f == 'digest':
+        elif f in ('digest', 'history'):
             if 'error' in impl:
                 return 'harness error %s' % impl['error']
+            if f == 'history':       # the model has no state: every call is judged on its own
+                j = int(kind.split(':')[1])
+                c, impl = {'reads': c['calls'][j]}, impl['calls'][j]
             outs, e = mv
             b_e = ERR.get(e[0]) if e else None
             a_e = err_class(impl['raised']) if impl['raised'] else None
@@ -690,7 +727,7 @@ class Prop(fw.PropBase):
         # second stage: the tagger on the real demultiplexed headers and on mutations of them
         real_headers = sorted(set(h['header'] for c, r in zip(cases, impl) if c['f'] == 'chain' and 'headers' in r
                                   for h in r['headers'] if 'header' in h))
-        dcases = self.gen_digest(real_headers)
+        dcases = self.gen_digest(real_headers) + self.gen_history(real_headers)
         dimpl = fw.run_impl('impl_c04.py', {'op': 'batch', 'cases': dcases})
         cases, impl = cases + dcases, impl + dimpl
         self.cases, self.impl = cases, impl
@@ -809,6 +846,8 @@ class Prop(fw.PropBase):
             return 'stores' in impl
         if f == 'digest':
             return bool(impl.get('raised')) or any(o[0] == 2 for o in mv[0])
+        if f == 'history':
+            return True
         return False
 
     # ---------------------------------------------------------------- search: the specification on the implementation
@@ -891,6 +930,18 @@ class Prop(fw.PropBase):
                 W.append({'key': 'encode:error', 'what': 'asFastq raises %s on a well-formed tag store' % r['error'],
                           'input': c['store'], 'impl': r['error'], 'expected': exp})
                 break
+        # ---- statelessness: on one flagger every read is tagged exactly as it is tagged on its own
+        if not any(c['f'] == 'history' for c in self.cases):
+            hc = self.gen_history([])
+            self.cases = self.cases + hc
+            self.impl = self.impl + fw.run_impl('impl_c04.py', {'op': 'batch', 'cases': hc})
+        for c, r in zip(self.cases, self.impl):
+            if c['f'] != 'history' or 'calls' not in r:
+                continue
+            w = self.history_violation(c, r)
+            if w:
+                W.append(w)
+                break
         # ---- the chain: every written field restored, SM / MI / name derived
         info = getattr(self, 'strategy_info', None) or fw.run_impl('impl_c04.py', {'op': 'strategies'})
         for c, r in zip(self.cases, self.impl):
@@ -900,6 +951,30 @@ class Prop(fw.PropBase):
             if w:
                 W.append(w)
                 break
+
+    def history_violation(self, c, r):
+        for j, (call, res) in enumerate(zip(c['calls'], r['calls'])):
+            stopped = False
+            for k, (rd, got, alone) in enumerate(zip(call, res['reads'], res['alone'])):
+                if rd is None:
+                    continue
+                if any(t == 'SM' for t, v in rd[1]):
+                    stopped = True                    # an already tagged read ends the call
+                if stopped or res['raised'] or alone['raised']:
+                    if alone['raised'] and not res['raised'] and not stopped:
+                        return {'key': 'history:raise', 'what': 'call %d read %d (%r) raises %s on a fresh QueryNameFlagger but not in '
+                                'the history' % (j + 1, k + 1, rd[0], alone['raised']), 'input': c, 'impl': got, 'expected': alone}
+                    continue
+                if got['name'] != alone['name'] or got['tags'] != alone['tags']:
+                    a, b = {t[0]: t[2] for t in got['tags']}, {t[0]: t[2] for t in alone['tags']}
+                    diff = sorted(t for t in set(a) | set(b) if a.get(t) != b.get(t))
+                    prev = [x[0][0] for x in c['calls'][:j] if x and x[0]]
+                    return {'key': 'history:stale-tags',
+                            'what': 'one QueryNameFlagger, call %d: read %r gets %s; digested alone the same read gets %s '
+                                    '(earlier names on this flagger: %r)'
+                                    % (j + 1, rd[0], {t: a.get(t) for t in diff}, {t: b.get(t) for t in diff}, prev[-3:]),
+                            'input': c, 'impl': got, 'expected': alone}
+        return None
 
     def chain_violation(self, c, r, tagdef, info):
         letters = _string.ascii_letters
